@@ -33,9 +33,12 @@ CHECKS = {
          "theorem (Chain.v, Programs.v): for every pipeline of map/filter/scan/take/skip stages of ANY length over ANY iterator, wired "
          "component model to component model, in every reachable state f has been called on exactly the list function of the defined prefix "
          "of the iterator pulled so far, in order (pipeline_functional, pipeline_for_each), and no component violates the protocol or "
-         "panics (pipeline_sound). The net semantics is tied to the crate by running random linear pipelines on both each run; the real "
-         "crate is also compared with the lazy interpreter on random pipelines (depth 0-5, incl. multi-member concat!, map+flatten). Not "
-         "proved: liveness (a pull-driven pipeline runs to exhaustion), the next() count of the composed models, concat!/flatten stages.",
+         "panics (pipeline_sound); for operator TREES (Tree.v, TreeFunctional.v) every node has delivered its list function of its "
+         "children's outputs - a concat! stage the append of its members (C06_prog_concat), for_each exactly its child's output "
+         "(C06_prog_sink), from_iter the defined prefix of its iterator. The net semantics is tied to the crate by running random operator "
+         "trees on both each run; the real crate is also compared with the lazy interpreter on random pipelines (depth 0-5, incl. "
+         "multi-member concat!, map+flatten). Not proved: liveness (a pull-driven pipeline runs to exhaustion), the next() count of the "
+         "composed models, map-then-flatten stages inside programs.",
          "Coq assume-guarantee composition theorem over the component models + list-function/lazy-interpreter equivalence + differential tests"),
  "C07": ("proof", "Theorems: at every control point data_out = map f / filter c / scan_list r seed / firstn n / skipn n of data_in, for all "
          "parameters and all environments (push and pull are the same relation); sink and upstream end together (paired); take completes "
